@@ -47,8 +47,10 @@ def observe(cfg, origin=0, variant=0):
             pass
         stubs.reset(tagf)
     try:
-        res = evaluate(fobj, make_cv(s, variant), y, X=X, strategy=cfg["strategy"],
-                       scoring=stubs.RecordingMetric(tagm), return_data=bool(variant % 3 == 0))
+        # the documented default strategy is "refit": every other refit scenario leaves the argument out
+        kw = {} if (cfg["strategy"] == "refit" and (variant // 2) % 2 == 1) else {"strategy": cfg["strategy"]}
+        res = evaluate(fobj, make_cv(s, variant), y, X=X,
+                       scoring=stubs.RecordingMetric(tagm), return_data=bool(variant % 3 == 0), **kw)
     except REJECT:
         return {"rej": True}
     except Exception as e:
